@@ -633,6 +633,27 @@ func bvLt(a, b *BV) Bit {
 			return U.B0 // x < 0 unsigned
 		}
 	}
+	// comparisons of a plain bit vector known to be non-negative with 0 or 1
+	// are equalities with zero: one canonical, bit-level form for
+	// `x > 0`, `x != 0`, `x >= 1`, `!(x == 0)` and for `x < 1`, `x == 0`
+	nonNeg := func(v *BV) bool {
+		return !isArith(v) && (!v.Signed || (isConst(v.Bits[v.W-1]) && !v.Bits[v.W-1].c))
+	}
+	isZero := func(v *BV) Bit {
+		r := U.B1
+		for _, bit := range v.Bits {
+			r = band(r, bnot(bit))
+		}
+		return r
+	}
+	switch {
+	case okx && x.Sign() == 0 && nonNeg(b): // 0 < b
+		return bnot(isZero(b))
+	case oky && y.Sign() == 0 && nonNeg(a): // a < 0
+		return U.B0
+	case oky && y.IsInt64() && y.Int64() == 1 && nonNeg(a): // a < 1
+		return isZero(a)
+	}
 	op := "lt"
 	if a.Signed {
 		op = "slt"
